@@ -153,7 +153,11 @@ def install_hint_support(reg):
 
     sf["wellformed_tcp"] = wellformed_tcp
     sf["n_calls"] = lambda it, suffix: VInt(sum(1 for e in it.ctx.trace if e[0] == "call" and e[1][0].endswith(it.concrete(suffix))))
-    sf["new_deferred"] = lambda it: [e for e in it.ctx.trace if e[0] == "new-deferred"][-1][1][0]
+    def new_deferred(it):
+        evs = [e for e in it.ctx.trace if e[0] == "new-deferred"]
+        return evs[-1][1][0] if evs else it.fresh(DEFERRED, "no_deferred")
+
+    sf["new_deferred"] = new_deferred
 
     def is_method_of(it, f, recv, meth):
         f, recv = it.force(f), it.force(recv)
@@ -367,14 +371,19 @@ CONTRACTS = [
     Contract(CON + "_schedule_connection", props=[PROP], params={"delay": "real", "h": HINT, "is_relay": "bool"},
              self_fields=CONNECTOR_FIELDS, requires=["valid_hint(h)"], modifies=["_pending_connectors"],
              internal_ensures=[
-                 ("one-attempt-scheduled-for-exactly-this-hint",
-                  "bcalls('deferLater') == 1 and n_calls('endpoint_from_hint_obj') == 1 and call_arg('endpoint_from_hint_obj', 0, 0) == h and "
-                  "call_arg('endpoint_from_hint_obj', 0, 1) is self._tor and "
+                 ("endpoint-asked-for-exactly-this-hint",
+                  "n_calls('endpoint_from_hint_obj') == 1 and call_arg('endpoint_from_hint_obj', 0, 0) == h and "
+                  "call_arg('endpoint_from_hint_obj', 0, 1) is self._tor"),
+                 ("one-attempt-scheduled-iff-there-is-an-endpoint",
+                  "bcalls('deferLater') == ite(call_result('endpoint_from_hint_obj') is not None, 1, 0)"),
+                 ("the-attempt-is-for-exactly-this-hint",
+                  "bcalls('deferLater') == 0 or ("
                   "is_method_of(bcall_arg('deferLater', 0, 2), self, '_connect') and bcall_arg('deferLater', 0, 1) == delay and "
-                  "bcall_arg('deferLater', 0, 3) is call_result('endpoint_from_hint_obj') and bcall_arg('deferLater', 0, 5) == is_relay"),
+                  "bcall_arg('deferLater', 0, 3) is call_result('endpoint_from_hint_obj') and bcall_arg('deferLater', 0, 5) == is_relay)"),
                  ("attempt-is-tracked-for-cancellation",
-                  f"forall(lambda x: (x in self._pending_connectors) == (x in old(self._pending_connectors) or x == new_deferred()), '{DEFERRED}')"),
-                 ("no-connect-scheduled-without-an-endpoint", "bcall_arg('deferLater', 0, 3) is not None")],
+                  f"forall(lambda x: (x in self._pending_connectors) == (x in old(self._pending_connectors) or "
+                  f"(bcalls('deferLater') == 1 and x == new_deferred())), '{DEFERRED}')"),
+                 ("no-connect-scheduled-without-an-endpoint", "bcalls('deferLater') == 0 or bcall_arg('deferLater', 0, 3) is not None")],
              note="h passed the parser (call-site precondition, proved in _use_hints); the endpoint comes from "
                   "endpoint_from_hint_obj (by contract)"),
     Contract(CON + "_connect", props=[PROP], params={"ep": "opt[obj[Endpoint]]", "description": "str", "is_relay": "bool"},
@@ -474,7 +483,13 @@ def regf_inline_parse_hint():
 
 def tasks():
     special = {CON + "got_hints": regf_automat, "lemma:roundtrip_relay_single": regf_inline_parse_hint}
-    return [ContractTask(c, special.get(c.target, regf)) for c in CONTRACTS]
+    out = [ContractTask(c, special.get(c.target, regf)) for c in CONTRACTS]
+    # a connection-hints message must be acceptable in every state the Manager can be in when the peer's message arrives
+    # (the table rows of rx_HINTS: contract in C11's module over the real transition table): a missing row would turn any
+    # hints message, whatever its content, into automat.NoTransition out of received_dilation_message
+    from .common import shared_tasks
+    out += shared_tasks("c20", "c11", ("Manager.rx_HINTS", "Manager.use_hints"))
+    return out
 
 
 TRUSTED = ["z3/cvc5", "pyvc semantics of the Python subset incl. the JSON sort (bool is a subclass of int; .get/[]/in/iteration "
@@ -491,17 +506,18 @@ ASSUMPTIONS = ["JSON floats are reals; a priority 1 and a priority 1.0 are disti
                "CPython): affects only how hints are grouped, not whether anything raises",
                "Manager.use_hints: Connector.got_hints is recorded as an event there (the argument is proved to hold only parsed "
                "hints); Connector.got_hints itself is verified through the real Automat table with exactly that precondition. "
-               "Manager.rx_HINTS (the Manager's own machine) is not under contract here: C11/C17 own the Manager machine",
+               "Manager.rx_HINTS (rows of the Manager's machine) is run here through C11's contract on the real table; NoTransition in "
+               "WAITING / STOPPED (before dilation starts / after it stopped) is stated there, not excluded",
                "Connector.got_hints in state 'stopped' raises NoTransition (Automat); that the Manager does not feed a stopped "
                "Connector is not decided here",
                "the relay hints this side configures (transit_relay / _transit_relays, from parse_hint_argv) are taken as parsed "
                "hint objects: an unparseable --transit-helper string yields RelayV1Hint((None,)), which is own configuration, not "
                "peer input",
                "Connector._connect requires the 16-hex-digit side this Connector was constructed with",
-               "OPEN (defect candidate, reproduced natively): Connector._schedule_connection schedules _connect(None, ..) when "
-               "endpoint_from_hint_obj returns None (a relay-v1 hint whose sub-hint is tor-tcp-v1 on a client without Tor, or an "
-               "address Tor refuses): AttributeError inside the reactor, logged by the errback chain; obligation "
-               "_schedule_connection.ensures.no-connect-scheduled-without-an-endpoint is left failing",
+               "fixed defect (d1f4484): Connector._schedule_connection used to schedule _connect(None, ..) when endpoint_from_hint_obj "
+               "returned None (a relay-v1 hint whose sub-hint is tor-tcp-v1 on a client without Tor, or an address Tor refuses): "
+               "AttributeError inside the reactor (replay/native/c20_connect_scheduled_without_endpoint.py); the obligations "
+               "one-attempt-scheduled-iff-there-is-an-endpoint / no-connect-scheduled-without-an-endpoint guard the repair",
                "not under contract: Common.get_connection_hints / _get_direct_hints (inlineCallbacks + listener set-up: this side's own "
                "addresses), Connector._publish_hints / Manager.send_hints (encode side of the dilation hints: encode_hint is "
                "covered by the two round-trip lemmas, the list comprehension around it is not); the relay round trip is proved for "
